@@ -42,7 +42,16 @@ at least two bins).
   `partition_valid_trace_labels` (hence validity alone implies that the abstract labels are the returned label map:
   the `labelsOk` half of `SP.verdict` needs no per-input check once the trace is valid).
 
-**Stated, not proved**: `G3Statement` (the emitted ghost trace is always `Valid`), see its doc comment.
+* **`partition_trace_valid : G3Statement`**: the emitted ghost trace is accepted by `Flood.traceValid` on the grid's graph
+  for all inputs (`partition_trace_run`: it is `Flood.Valid`); `ptFld_trace_valid` is the same for `pt_fld` on any graph
+  and table related by `Ctx` (`Lemmas/Fld/Sim.lean`), `partition_ctx` provides that context; with
+  `partition_valid_trace_labels` this gives `partition_abstract_labels`.  Proof: a simulation relation between the
+  concrete arrays and the abstract state carried through all loops (`Lemmas/Fld/G1a`, `G1b`, `G1c`, `GTop`, `G2`, `GCtx`,
+  `GValid`): 1a marks exactly the level's pixels (sortedness of `ind`) and queues those touching a lower level; 1b keeps
+  the queue in geodesic-distance order (`D` processed, `A` current distance, fictitious pixel, `B` next distance), every
+  dequeued pixel has a final labelled neighbour of smaller distance, and when the queue is empty no `MASK` pixel
+  touches a labelled one (symmetry of the table); 1c floods each new seed with the queue as the abstract frontier; step 2
+  reads the snapshot.
 -/
 namespace WS.C20fld
 open WS.SP WS.Fld WS.Neigh
@@ -62,10 +71,7 @@ def G2Statement : Prop :=
     ∀ (iqFill : Int) (tr : Bool), (partition nk nth ihmax (table nk nth) spec iqFill tr).fuelOut = false
 
 /-- (G3) the ghost trace of the transliteration is always a valid trace of the abstract flooding machine on the
-    grid's graph.  **Not proved**: it needs a simulation relation between the concrete arrays (`imo`, `imd`, queue) and
-    the abstract state (`lab`, `fin`, `cur`, `frontier`) through all phases, including that `ind` is *sorted* by level
-    (guard of `endqueue`/`endlevel`) and the geodesic-distance argument behind `finalize`; checked per explored input
-    by `harness/checks/c04.py`. -/
+    grid's graph.  Proved: `partition_trace_valid` (it was checked per explored input by `harness/checks/c04.py`). -/
 def G3Statement : Prop :=
   ∀ (nk nth ihmax : Nat), 1 ≤ nk → 1 ≤ nth → 1 ≤ ihmax → ∀ (spec : Array Int), spec.size = nk * nth →
     ∀ (iqFill : Int),
@@ -290,6 +296,62 @@ theorem partition_valid_trace_labels (nk nth ihmax : Nat) (hk : 1 ≤ nk) (ht : 
 
 example : Flood.run ⟨0, fun _ => [], fun _ => 0⟩ [] = some (Flood.St.init 0) := rfl
 
+/-! ## (G3): the ghost trace is always valid -/
+
+/-- **`pt_fld` emits a valid trace** on every graph `g` that is what the routine was given: `Ctx n nb imi ind g` says that
+    the rows of the neighbour table `nb` are the adjacency lists of `g` (symmetric), that the level map of `g` is `imi`,
+    and that `ind` lists the pixels sorted by level.  Every guard of the abstract machine holds along the trace
+    (`mark`; `inherit`, `conflict`, `finalize`; `endqueue`; `seed`, `flood`, `closed`; `endlevel`; `sweep`, `resolve`). -/
+theorem ptFld_trace_valid {n : Nat} {nb imi ind zp : Array Int} {g : Flood.Graph} (C : Ctx n nb imi ind g) (ihmax : Nat)
+    (iqFill : Int) (hz : zp.size = n) (hn : 2 ≤ n) (hl : ∀ p, p < n → g.level p < ihmax) :
+    Flood.Valid g (ptFld n nb imi ind zp ihmax iqFill true false).1.trace.toList := by
+  obtain ⟨s, hrun, -⟩ := ((triple_iff _ _ _).mp (ptFld_specG C ihmax iqFill hz hn hl) false rfl).2
+  unfold Flood.Valid
+  rw [hrun]; rfl
+
+/-- what `partition` hands to `pt_fld` is such a context: the cylinder table and the graph built from the same rows, the
+    discretised levels, the output of the counting sort -/
+theorem partition_ctx (mk mth ihmax : Nat) {imi ind : Array Int} (hs : imi.size = mk * mth)
+    (hl : ∀ i, i < mk * mth → 0 ≤ imi[i]! ∧ imi[i]! < ihmax) (hind : IndOK (mk * mth) ind)
+    (he : ind.toList = (ptsortSpec ihmax (mk * mth) (fun p => (imi[p]!).toNat)).map (fun (x : Nat) => (x : Int))) :
+    Ctx (mk * mth) (table mk mth) imi ind (graphOf mk mth (rows mk mth) imi) :=
+  ctx_partition mk mth ihmax hs hl hind he
+
+/-- the ghost trace of every non-constant run of `partition` runs through the abstract flooding machine on the grid's
+    graph: `Flood.Valid` -/
+theorem partition_trace_run (nk nth ihmax : Nat) (hk : 1 ≤ nk) (ht : 1 ≤ nth) (hi : 1 ≤ ihmax) (spec : Array Int)
+    (hs : spec.size = nk * nth) (iqFill : Int) :
+    let r := partition nk nth ihmax (table nk nth) spec iqFill true
+    r.const = false → Flood.Valid (graphOf nk nth (rows nk nth) r.imi) r.trace.toList := by
+  intro r hc
+  obtain ⟨s, hrun⟩ := ((triple_iff _ _ _).mp (partitionM_specG nk nth ihmax spec iqFill hk ht hi hs) false rfl).2 hc
+  show (Flood.run (graphOf nk nth (rows nk nth) (partitionM nk nth ihmax (table nk nth) spec iqFill true false).1.imi)
+    (partitionM nk nth ihmax (table nk nth) spec iqFill true false).1.trace.toList).isSome = true
+  rw [hrun]; rfl
+
+/-- **(G3)** the ghost trace emitted by `partition` is accepted by the executable checker `Flood.traceValid` on the grid's
+    graph, for every grid, every level count, every spectrum and every filling of the queue buffer. -/
+theorem partition_trace_valid : G3Statement := by
+  intro nk nth ihmax hk ht hi spec hs iqFill r hc
+  obtain ⟨s, hrun⟩ := ((triple_iff _ _ _).mp (partitionM_specG nk nth ihmax spec iqFill hk ht hi hs) false rfl).2 hc
+  exact traceValid_of_run hrun
+
+/-- hence, for all inputs, the abstract machine ends on the returned label map (`labelsOk` of `SP.verdict`): replaying
+    the emitted trace on the grid's graph succeeds and leaves at pixel `ifreq + nk·iang` the label returned for bin
+    `[ifreq][iang]` -/
+theorem partition_abstract_labels (nk nth ihmax : Nat) (hk : 1 ≤ nk) (ht : 1 ≤ nth) (hi : 1 ≤ ihmax)
+    (spec : Array Int) (hs : spec.size = nk * nth) (iqFill : Int) :
+    let r := partition nk nth ihmax (table nk nth) spec iqFill true
+    r.const = false → ∃ s, Flood.run (graphOf nk nth (rows nk nth) r.imi) r.trace.toList = some s ∧
+      ∀ f t, f < nk → t < nth → s.labOf (f + nk * t) = labC r.labels[f * nth + t]! := by
+  intro r hc
+  obtain ⟨s, hrun⟩ := ((triple_iff _ _ _).mp (partitionM_specG nk nth ihmax spec iqFill hk ht hi hs) false rfl).2 hc
+  exact ⟨s, hrun, partition_valid_trace_labels nk nth ihmax hk ht hi spec hs iqFill _ rfl s hc hrun⟩
+
+example : (Flood.traceValid (graphOf 2 2 (rows 2 2) (partition 2 2 3 (table 2 2) #[0, 5, 2, 5] 0 true).imi)
+    (partition 2 2 3 (table 2 2) #[0, 5, 2, 5] 0 true).trace).1 = true :=
+  partition_trace_valid 2 2 3 (by decide) (by decide) (by decide) _ rfl 0 (by decide +kernel)
+
 /-! ### the hypotheses are satisfiable -/
 
 /-- `ind = [1, 0]` lists both pixels of a 1×2 grid -/
@@ -302,6 +364,24 @@ example : IndOK 2 #[1, 0] :=
       rcases ‹j = 0 ∨ j = 1› with rfl | rfl <;> rcases ‹k = 0 ∨ k = 1› with rfl | rfl <;> simp_all⟩
 
 example : NbOK (1 * 2) (table 1 2) := table_ok 1 2
+
+/-- the context `Ctx` of `ptFld_trace_valid` / the hypotheses of `partition_ctx` are satisfiable: a 1×2 grid with levels
+    `[1, 0]`, sorted listing `[1, 0]` -/
+example : Ctx (1 * 2) (table 1 2) #[1, 0] #[1, 0] (graphOf 1 2 (rows 1 2) #[1, 0]) :=
+  partition_ctx 1 2 2 rfl
+    (by intro i hi; have : i = 0 ∨ i = 1 := by omega
+        rcases this with rfl | rfl <;> decide)
+    ⟨rfl, by intro k hk; have : k = 0 ∨ k = 1 := by omega
+             rcases this with rfl | rfl <;> exact ⟨by decide, by decide⟩,
+     by intro j k hj hk h
+        have : j = 0 ∨ j = 1 := by omega
+        have : k = 0 ∨ k = 1 := by omega
+        rcases ‹j = 0 ∨ j = 1› with rfl | rfl <;> rcases ‹k = 0 ∨ k = 1› with rfl | rfl <;> simp_all⟩
+    (by decide)
+
+example : ∀ p, p < 1 * 2 → (graphOf 1 2 (rows 1 2) #[1, 0]).level p < 2 := by
+  intro p hp; have : p = 0 ∨ p = 1 := by omega
+  rcases this with rfl | rfl <;> decide
 
 example : Idle 2 (Array.replicate 2 (-1)) (Array.replicate 2 0) (Array.replicate 2 5) 0 0 0 0 :=
   Idle.init (by decide) 5
